@@ -112,7 +112,9 @@ def items(tier, seed):
     quick = tier == "quick"
     out = []
     # -- ens
-    biases = ["zero", "p50", "m50", "mix"] if quick else ["zero", "p50", "m50", "mix", "p1e4", "m1e4"]
+    # "bigmean": member means near +300 (disagreeing by ~1e-2) with log-variance near -6 - a variance that is tiny
+    # relative to the squared mean (cancellation-prone formulations of the aggregate variance fail here)
+    biases = ["zero", "p50", "m50", "mix", "bigmean"] if quick else ["zero", "p50", "m50", "mix", "bigmean", "p1e4", "m1e4"]
     kinds = ["vec", "b1", "b2", "b3", "mb2"] if quick else ["vec", "b1", "b2", "b3", "mb1", "mb2", "mb3"]
     hiddens = [[3]] if quick else [[3], [4, 3]]
     inits = [0] if quick else [0, 1]
@@ -277,6 +279,8 @@ def check_bounds(col, entry, lv, model, detail):
 def bias_matrix(pattern, ne, no):
     if pattern == "zero":
         return np.zeros((ne, no))
+    if pattern == "bigmean":
+        return np.full((ne, no), -6.0)
     if pattern in ("p50", "m50", "p1e4", "m1e4"):
         v = {"p50": 50.0, "m50": -50.0, "p1e4": 1e4, "m1e4": -1e4}[pattern]
         return np.full((ne, no), v)
@@ -312,6 +316,13 @@ def work_ens(item, col):
     ne, no, nf, seed = item["ne"], item["no"], item["nf"], item["seed"]
     model = new_ensemble(ne, item["shared"], nf, no, item["hidden"], 1000 * seed + 17 * item["init"] + ne + 3 * no + 11 * nf)
     set_logvar_bias(model, bias_matrix(item["bias"], ne, no))
+    if item["bias"] == "bigmean":
+        import jax.numpy as jnp
+
+        layer = model.ensemble.output_layers[0]  # mean head: first n_outputs columns (shared and split layout)
+        b = np.array(layer.bias.value)
+        b[:, :no] = b[:, :no] + 300.0 + 0.01 * np.arange(ne)[:, None]
+        layer.bias.value = jnp.asarray(b)
     nontriv = ne > 1 or no > 1
     arch = item["name"]
     for pat in bound_patterns(no, item["rotations"]):
